@@ -190,6 +190,14 @@ def check(pid, tier):
     gname = lambda g: "%s.%s" % (getattr(g, "__module__", "?").split(".")[-1], g.__name__)
     # quick tier: every generator runs with several sub-seeds (its enumerated part comes out identical
     # each time and is kept once, its random part is multiplied); all derived from the one seed
+    if "PeliteModel.Thm.ImageLayout" in P.thm_modules:
+        # the layout theorem is one of this property's obligations: every struct value field by field through the
+        # real struct and through the golden offsets, so that a layout change comes with a concrete failing input
+        from . import layoutgen
+        try:
+            cases += layoutgen.gen_fields(rng, tier)
+        except Exception as ex:
+            gen_errors["layoutgen.gen_fields"] = repr(ex)[:300]
     reps = int(os.environ.get("VERIF_REPS", "4" if tier == "quick" else "1"))
     # change-directed budget: source files that differ from the recorded baseline and are anchored in this
     # property (or are shared helpers) multiply the random part of the quick tier again — more search where
